@@ -466,7 +466,9 @@ def run_job(job):
         if not job.nocanary:
             if not canary:
                 raise Undecided("vacuity guard: no canary obligation generated")
-            if any(c["status"] != "FAILURE" for c in canary):
+            if any(c["status"] != "FAILURE" for c in canary) and not any(r["status"] == "FAILURE" for r in obl):
+                # (an unreachable canary TOGETHER with failed obligations is not vacuity: e.g. a changed loop bound makes the
+                # loop exit contradict the invariant while loop_invariant_step fails -- the failures are reported)
                 raise Undecided("vacuity guard: canary not reachable (contradictory precondition or call does not return)")
         if len(obl) < job.min_props:
             raise Undecided("vacuity guard: %d obligations generated, expected >= %d" % (len(obl), job.min_props))
